@@ -507,6 +507,26 @@ func genC11(g *Gen) {
 		}
 		g.setMode(0)
 	})
+	// significands that are decimal prefixes of 2^110 = (largest coefficient + 1) / 10, +-1, at the exponents where the
+	// result has to be clamped into the largest exponent: the last multiplication by ten that still fits
+	{
+		top := new(big.Int).Lsh(big.NewInt(1), 110).String()
+		g.gridRun(19*3*3, 0.08, func(i int) {
+			n := 1 + i%19
+			p, _ := new(big.Int).SetString(top[:n], 10)
+			p.Add(p, big.NewInt(int64((i/19)%3-1)))
+			if p.Sign() <= 0 || !p.IsInt64() {
+				return
+			}
+			sig := p.Int64()
+			if g.r.Intn(2) == 0 {
+				sig = -sig
+			}
+			e := Ev{"op": "New", "sig": bigNInt(sig)}
+			setInt(e, "exp", eMax+35-len(p.String())+(i/57)-1)
+			g.emit(e)
+		})
+	}
 	for !g.w.full() {
 		// New
 		var sig int64
